@@ -2,7 +2,7 @@
 import ast
 import z3
 from pyvc.contracts import contract, fragment, lemma, bounded, exhaustive, scenario, stub, REGISTRY
-from pyvc.logic import And, Or, Not, Implies, Iff, eq, le, lt, If, ne, ForAllInt, any_z3, to_z3, floordiv, mod
+from pyvc.logic import And, Or, Not, Implies, Iff, eq, le, lt, If, ne, ForAllInt, any_z3, to_z3, floordiv, mod, Max, Min
 from pyvc import sorts as T
 from pyvc.values import SObj, SBytes, SList, SMap, SymFn
 from pyvc.extract import real_module
@@ -180,7 +180,8 @@ def _w_step_spec(widths, old_w, r, old_r, v, q):
     if len(old_r) < 2:
         return And(len(r) == len(old_r) + 1, keep)
     c1, c2 = old_r
-    return And(len(r) == 0, If(And(le(c1, q), le(q, c2)), And(mhas(widths, q), eq(mget(widths, q), v)), keep))
+    # CIDs are 16-bit numbers: the range applies to the CIDs that exist
+    return And(len(r) == 0, If(And(le(c1, q), le(q, c2), le(0, q), le(q, 65535)), And(mhas(widths, q), eq(mget(widths, q), v)), keep))
 
 
 def _same_list(a, b):
@@ -191,10 +192,10 @@ c = fragment("pdfminer.pdffont:get_widths", "one-array-element", _widths_body, p
 c.param("widths", T.IntMap()).param("r", _Pending()).param("v", _Elem())
 c.ghost("q", T.Int(-2, 30))
 c.mod("widths").mod("r")
-c.loop(2, kind="for i", inv=lambda widths, old, k, char1, char2, w, q: And(
-    Iff(mhas(widths, q), Or(mhas(old.widths, q), And(le(char1, q), lt(q, char1 + k)))),
-    Implies(And(le(char1, q), lt(q, char1 + k)), eq(mget(widths, q), w)),
-    Implies(Not(And(le(char1, q), lt(q, char1 + k))), eq(mget(widths, q), mget(old.widths, q)))))
+c.loop(2, kind="for i", inv=lambda widths, old, k, char1, char2, w, q: (lambda lo: And(
+    Iff(mhas(widths, q), Or(mhas(old.widths, q), And(le(lo, q), lt(q, lo + k)))),
+    Implies(And(le(lo, q), lt(q, lo + k)), eq(mget(widths, q), w)),
+    Implies(Not(And(le(lo, q), lt(q, lo + k))), eq(mget(widths, q), mget(old.widths, q)))))(Max(char1, 0)))
 c.ens("ISO-W-array-step", lambda widths, old, r, v, q: _w_step_spec(widths, old.widths, r, old.r, v, q))
 c.samples_hint = lambda rng, conc: conc
 
